@@ -117,6 +117,54 @@ pub fn seq(args: &Args) {
     println!("{}", json!({"behaviours": nb, "ops": nops, "inserts": ni, "finds": nf}));
 }
 
+/// wv tt-own --threads n --ops m --seed s --tables T --buckets B: every thread works on keys only it uses, in a table whose
+/// buckets can never fill; the per-thread call logs (program order, results) are judged for read-your-writes.
+pub fn own(args: &Args) {
+    quiet_panics();
+    let threads: usize = args.num("--threads", 8);
+    let nops: usize = args.num("--ops", 300);
+    let seed: u64 = args.num("--seed", 1);
+    let t: usize = args.num("--tables", 1);
+    let b: usize = args.num("--buckets", 64);
+    let per: usize = 4;
+    let mut out = Out::new(args.get("--out"));
+    let table = Arc::new(verif::Table::new(t, b));
+    // keys th*per+j spread over the buckets; at most 8 keys may share a bucket
+    let mut load = std::collections::HashMap::new();
+    for k in 0..(threads * per) as u64 { *load.entry((k % t as u64, k % b as u64)).or_insert(0usize) += 1; }
+    assert!(load.values().all(|n| *n <= verif::Table::bucket_size()), "bucket could fill");
+    let handles: Vec<_> = (0..threads).map(|th| {
+        let table = table.clone();
+        std::thread::spawn(move || {
+            let mut rng = ChaCha8Rng::seed_from_u64(seed * 7919 + th as u64);
+            let mut calls = vec![];
+            for i in 0..nops {
+                let k = (th * per + rng.gen_range(0..per)) as u64;
+                if rng.gen_bool(0.5) {
+                    let v = (th * 100_000 + i) as u32;
+                    table.insert(k, v);
+                    calls.push(json!({"op": "ins", "key": key_json(k), "val": v, "hit": true}));
+                } else {
+                    match table.find(k) {
+                        Some((v, _)) => calls.push(json!({"op": "find", "key": key_json(k), "val": v, "hit": true})),
+                        None => calls.push(json!({"op": "find", "key": key_json(k), "val": 0, "hit": false})),
+                    }
+                }
+            }
+            (th, calls)
+        })
+    }).collect();
+    let mut n = 0;
+    for h in handles {
+        let (th, calls) = h.join().unwrap();
+        n += calls.len();
+        out.ev(json!({"ev": "Own", "th": th, "T": t, "B": b, "calls": calls}));
+    }
+    out.ev(json!({"ev": "OwnTotal", "total": table.entries(), "max": table.max_entries(), "keys": threads * per}));
+    out.finish();
+    println!("{}", json!({"threads": threads, "calls": n}));
+}
+
 /// wv tt-hammer --threads n --ops m --seed s --tables T --buckets B --pattern uniform|collide|aligned
 pub fn hammer(args: &Args) {
     quiet_panics();
